@@ -254,12 +254,36 @@ fn run_seq_block(ctx: &Ctx, blk: (usize, usize, usize), tag: u64, sink: &mut Sin
     }
 }
 
+/// (chunk size, bytes queued unread before the interesting part)
+const BACKLOGS: [(usize, u32); 8] = [(4096, 1 << 20), (4096, 9 << 20), (65_536, 9 << 20), (65_536, 40 << 20), (4096, 33 << 20), (7, 1 << 20), (1000, 17 << 20), (65_536, 1 << 20)];
+
 pub fn c08_n_blocks(ctx: &Ctx) -> usize {
-    seq_space(ctx, 4, 5).blocks.len()
+    seq_space(ctx, 4, 5).blocks.len() + if ctx.leg.slow() { 0 } else { BACKLOGS.len() }
 }
 
 pub fn c08_block(b: usize, sink: &mut Sink, judge: &Judge) {
     let ctx = sink.ctx.clone();
+    let n_seq = seq_space(&ctx, 4, 5).blocks.len();
+    if b >= n_seq {
+        // a large unread backlog, then small writes and flushes: everything accepted before a flush
+        // must still be available once the consumer drains
+        let (chunk, backlog) = BACKLOGS[b - n_seq];
+        let c = chunk as u32;
+        for tail in [1u32, 63, 64, c.saturating_sub(1).max(1), c + 1] {
+            for variant in 0..3 {
+                let mut ops = vec![Op::WriteAll(backlog)];
+                match variant {
+                    0 => ops.extend([Op::WriteAll(tail), Op::Flush, Op::PollAll, Op::WriteAll(tail), Op::Flush, Op::PollAll]),
+                    1 => ops.extend([Op::Flush, Op::WriteAll(tail), Op::Flush, Op::WriteAll(1), Op::Flush, Op::PollAll]),
+                    _ => ops.extend([Op::PollOnce, Op::Write(tail), Op::Flush, Op::PollAll, Op::Write(tail), Op::PollAll]),
+                }
+                let case = StreamCase::raw(chunk, ops);
+                exec(&case, sink, judge);
+                sink.count("backlog_histories");
+            }
+        }
+        return;
+    }
     let blk = seq_space(&ctx, 4, 5).blocks[b];
     run_seq_block(&ctx, blk, 8, sink, &|c, ops, rng| {
         let mut case = StreamCase::raw(c, ops);
@@ -279,11 +303,11 @@ impl Prop for C08 {
         "exploration"
     }
     fn rule(&self, ctx: &Ctx) -> String {
-        format!("identity-coded streaming bodies. Alphabet per chunk size c: write(0,1,c-1,c,c+1,2c,3c), write_all(1,c+1,3c), flush, poll-once, poll-until-pending; every sequence ends with drop + drain + 2 extra polls. Exhaustive: all sequences of length 1..={} for c in {{1,2,3,4,7}}, both request representations alternating; random: sequences of 10..200 ops for c in {{1,2,3,4,7,4096,65536}}. Payload byte k is a position hash. Non-trivial = distinct sequence that accepted >= 1 byte and whose frames, write counts, flush availability and clean end were compared with the sequential model",
+        format!("identity-coded streaming bodies. Alphabet per chunk size c: write(0,1,c-1,c,c+1,2c,3c), write_all(1,c+1,3c), flush, poll-once, poll-until-pending; every sequence ends with drop + drain + 2 extra polls. Exhaustive: all sequences of length 1..={} for c in {{1,2,3,4,7}}, both request representations alternating; random: sequences of 10..200 ops for c in {{1,2,3,4,7,4096,65536}}; backlog histories: 1-40 MiB queued unread, then small writes + flush + drain. Payload byte k is a position hash. Non-trivial = distinct sequence that accepted >= 1 byte and whose frames, write counts, flush availability and clean end were compared with the sequential model",
             if thorough(ctx) { 5 } else { 4 })
     }
     fn n_blocks(&self, ctx: &Ctx) -> usize {
-        seq_space(ctx, 4, 5).blocks.len()
+        c08_n_blocks(ctx)
     }
     fn exhaustive(&self, _: &Ctx) -> bool {
         false
@@ -295,7 +319,7 @@ impl Prop for C08 {
         replay(&c08_judge, case, sink);
     }
     fn floors(&self, _: &Ctx) -> Vec<(&'static str, u64)> {
-        vec![("partial_writes", 1000), ("flush_availability_checked", 1000), ("pendings", 1000), ("frames", 10_000)]
+        vec![("partial_writes", 1000), ("flush_availability_checked", 1000), ("pendings", 1000), ("frames", 10_000), ("backlog_histories", 100)]
     }
 }
 
